@@ -85,7 +85,10 @@ class Response:
         try:
             self.code = int(lines[0].split(b" ")[1])
         except Exception:
-            self.code = None
+            # twisted.web's last-resort error page for an exception that escaped the resource ("Processing Failed") can arrive without a status line
+            self.code = 500 if b"Processing Failed" in raw else None
+            if self.code == 500:
+                body = raw
         self.headers = {}
         for ln in lines[1:]:
             k, _, v = ln.partition(b":")
